@@ -1,0 +1,8 @@
+//go:build !verif
+
+package sugardb
+
+import "sync"
+
+// storeRWMutex is the type of the global store lock. In ordinary builds it is sync.RWMutex itself.
+type storeRWMutex = sync.RWMutex
